@@ -112,6 +112,9 @@ pub struct History {
     pub raw_out: Vec<u8>,
     /// number of stdin bytes the raw descriptor handed over
     pub stdin_consumed: usize,
+    /// how often the code under test read the (simulated) clock; not part of the digest
+    #[serde(default)]
+    pub clock_reads: u64,
 }
 
 impl History {
